@@ -83,6 +83,8 @@ struct World {
     next_circ: i64,
     det: Det,
     evs: Vec<Value>,
+    /// handler reports (connection, accepted?) not yet delivered to the behaviour: the handler is still writing its response
+    deferred: std::collections::VecDeque<(usize, bool)>,
 }
 
 fn endpoint(c: usize) -> ConnectedPoint {
@@ -209,6 +211,9 @@ impl World {
                     return;
                 }
                 let ok = vcommon::b(op, "ok");
+                if self.deferred.iter().any(|(x, _)| *x == c) {
+                    return; // one request at a time per connection handler
+                }
                 let Some(Either::Left(req)) = self.inbound(c, hop_reserve()) else { return };
                 self.evs.push(json!({"e": "reserve", "p": p, "c": c, "renewed": self.active[c]}));
                 self.feed(c, from_handler::reservation_req_received(req, endpoint(c), self.active[c]));
@@ -216,7 +221,11 @@ impl World {
                     match cmd {
                         ToHandler::AcceptReservationReq { .. } => {
                             assert_eq!(to, c);
-                            if ok {
+                            if op.get("defer").and_then(|x| x.as_bool()).unwrap_or(false) {
+                                // the handler has not reported back yet (it is still writing the response); further requests
+                                // may reach the behaviour in the meantime (seeded mutant C47-1: check-then-act on the limits)
+                                self.deferred.push_back((c, ok));
+                            } else if ok {
                                 let renewed = self.active[c];
                                 self.active[c] = true;
                                 self.feed(c, from_handler::reservation_req_accepted(renewed));
@@ -232,11 +241,27 @@ impl World {
                     self.drain(c as i64, -1);
                 }
             }
+            "report" => {
+                // one deferred handler report reaches the behaviour
+                if let Some((c, ok)) = self.deferred.pop_front() {
+                    if !self.open[c] {
+                        return;
+                    }
+                    if ok {
+                        let renewed = self.active[c];
+                        self.active[c] = true;
+                        self.feed(c, from_handler::reservation_req_accepted(renewed));
+                    } else {
+                        self.feed(c, from_handler::reservation_req_accept_failed());
+                    }
+                    self.drain(c as i64, -1);
+                }
+            }
             "timeout" => {
                 let p = vcommon::n(op, "p") as usize;
                 let c = 2 * p + vcommon::n(op, "j") as usize;
-                if !self.open[c] || !self.active[c] {
-                    return;
+                if !self.open[c] || !self.active[c] || self.deferred.iter().any(|(x, _)| *x == c) {
+                    return; // (a handler does not time a reservation out while it is writing the response to its renewal)
                 }
                 self.active[c] = false;
                 self.feed(c, from_handler::reservation_timed_out());
@@ -360,6 +385,7 @@ fn run(out: &mut Out, sched: &Value, peers: &[PeerId], local: PeerId) {
         next_circ: 1,
         det: Det::new(),
         evs: vec![],
+        deferred: Default::default(),
     };
     for op in sched["ops"].as_array().unwrap() {
         let r = vcommon::guard(|| w.op(op));
@@ -368,6 +394,15 @@ fn run(out: &mut Out, sched: &Value, peers: &[PeerId], local: PeerId) {
         }
         if let Err(m) = r {
             out.ev(json!({"e": "panic", "msg": m}));
+            break;
+        }
+    }
+    while !w.deferred.is_empty() {
+        let r = vcommon::guard(|| w.op(&json!({"a": "report"})));
+        for e in w.evs.drain(..) {
+            out.ev(e);
+        }
+        if r.is_err() {
             break;
         }
     }
@@ -402,7 +437,9 @@ fn random_sched(rng: &mut impl Rng) -> Value {
         let p = rng.gen_range(0..np);
         let j = rng.gen_range(0..2);
         let op = if x < 20 {
-            json!({"a": "reserve", "p": p, "j": j, "ok": rng.gen_bool(0.9)})
+            json!({"a": "reserve", "p": p, "j": j, "ok": rng.gen_bool(0.9), "defer": rng.gen_bool(0.4)})
+        } else if x < 24 {
+            json!({"a": "report"})
         } else if x < 50 {
             json!({"a": "connect", "p": p, "j": j, "d": rng.gen_range(0..np)})
         } else if x < 82 {
@@ -451,6 +488,10 @@ pub fn main(a: &vcommon::Args) {
             alpha.push(json!({"a": "cclose", "i": 0}));
             alpha.push(json!({"a": "timeout", "p": 0, "j": 0}));
             alpha.push(json!({"a": "close", "p": 0, "j": 1}));
+            // requests whose handler report is still outstanding, and the report
+            alpha.push(json!({"a": "reserve", "p": 1, "j": 1, "ok": true, "defer": true}));
+            alpha.push(json!({"a": "reserve", "p": 2, "j": 0, "ok": true, "defer": true}));
+            alpha.push(json!({"a": "report"}));
             let k = alpha.len();
             for (mr, mrp, mc, mcp) in [(2usize, 1usize, 2usize, 1usize), (3, 2, 3, 2)] {
                 for code in 0..k.pow(n as u32) {
